@@ -314,7 +314,9 @@ theorem fetchedFor_of_ok {ext : Externals} {mods : List P11Module} {cfg : Signer
 /-- **C02, key set of a slot.** Whenever `signBundle` succeeds — any token, any state — there are
     the schema action of the slot and the keys the three fetches returned such that the response key
     set is `SlotKeys` of them and of the request keys (membership by precedence, all with the
-    configured TTL, no public key text twice), and id / inception / expiration are the request's. -/
+    configured TTL, no public key text twice), and id / inception / expiration are the request's.
+    Caveat carried by `SlotKeys.mem` (see `SlotKeys.request_key_with_ksk_pk_dropped`): a request key
+    whose public key text equals that of a fetched KSK record is NOT in the set — the KSK record is. -/
 theorem signBundle_keys_spec (ext : Externals) (mods : List P11Module) (cfg : SignerConfig) (slot : Nat)
     (bundle rb : Bundle) (tok : Token) (s s' : TokState)
     (h : signBundle ext mods cfg slot bundle tok s = (.ok rb, s')) :
